@@ -130,8 +130,8 @@ func runHarnesses(l *Loaded, spec RunSpec, workers int, verbose bool) []HarnessR
 		hr := HarnessResult{Harness: h, Stats: ex.stats, Violations: ex.violations, Inconclusive: ex.inconclusive, WallS: time.Since(t0).Seconds(), Witnesses: ex.witnesses}
 		out = append(out, hr)
 		if verbose {
-			fmt.Fprintf(os.Stderr, "  %-50s paths=%d obl=%d/%d queries=%d (unk %d) solver=%.1fs wall=%.1fs vio=%d inc=%d merge=%d/%d steps=%d cachehits=%d\n", h, ex.stats.Paths, ex.stats.Discharged, ex.stats.Obligations,
-				ex.stats.Queries, ex.stats.QUnknown, ex.stats.SolverSec, hr.WallS, len(ex.violations), len(ex.inconclusive), ex.stats.MergeOK, ex.stats.MergeAbort, ex.stats.Steps, ex.stats.CacheHits)
+			fmt.Fprintf(os.Stderr, "  %-50s paths=%d obl=%d/%d queries=%d (unk %d slow %d) solver=%.1fs wall=%.1fs vio=%d inc=%d merge=%d/%d steps=%d cachehits=%d\n", h, ex.stats.Paths, ex.stats.Discharged, ex.stats.Obligations,
+				ex.stats.Queries, ex.stats.QUnknown, ex.stats.QSlow, ex.stats.SolverSec, hr.WallS, len(ex.violations), len(ex.inconclusive), ex.stats.MergeOK, ex.stats.MergeAbort, ex.stats.Steps, ex.stats.CacheHits)
 			for _, inc := range ex.inconclusive {
 				fmt.Fprintf(os.Stderr, "    INCONCLUSIVE(x%d): %s [%s]\n", inc.Count, inc.Reason, inc.Case)
 			}
@@ -345,7 +345,7 @@ func cmdCheck(args []string) int {
 			allInc = append(allInc, hr.Inconclusive...)
 			ph := map[string]interface{}{"harness": hr.Harness, "pkg": run.Pkg, "tags": run.Tags, "model": run.Model, "merge": run.Merge,
 				"paths": hr.Stats.Paths, "decisions": hr.Stats.Decisions, "obligations": hr.Stats.Obligations, "discharged": hr.Stats.Discharged,
-				"queries": hr.Stats.Queries, "unknown": hr.Stats.QUnknown, "solver_s": round3(hr.Stats.SolverSec), "wall_s": round3(hr.WallS),
+				"queries": hr.Stats.Queries, "unknown": hr.Stats.QUnknown, "slow": hr.Stats.QSlow, "solver_s": round3(hr.Stats.SolverSec), "wall_s": round3(hr.WallS),
 				"cases": len(hr.Stats.Cases), "reach": hr.Stats.Reached, "params": copyParams(currentParams),
 				"violations": len(hr.Violations), "inconclusive": len(hr.Inconclusive)}
 			perHarness = append(perHarness, ph)
@@ -439,7 +439,7 @@ func cmdCheck(args []string) int {
 				"obligations":                   total.Obligations,
 				"discharged":                    total.Discharged,
 				"trivially_discharged":          total.TrivialObl,
-				"solver_queries":                map[string]int{"total": total.Queries, "sat": total.QSat, "unsat": total.QUnsat, "unknown": total.QUnknown, "error": total.QErrors},
+				"solver_queries":                map[string]int{"total": total.Queries, "sat": total.QSat, "unsat": total.QUnsat, "unknown": total.QUnknown, "error": total.QErrors, "decided_only_by_last_escalation_stage": total.QSlow},
 				"solver_seconds":                round3(total.SolverSec),
 				"interpreted_ssa_steps":         total.Steps,
 				"functions_encoded":             funcs,
